@@ -97,6 +97,8 @@ impl Database {
             .truncate(false)
             .open(Self::data_path_from(path))?;
 
+        #[cfg(feature = "verif")]
+        verif::pause("open:before-lock");
         file.try_lock()?;
 
         let mut file_len = file.metadata()?.len() as usize;
